@@ -233,6 +233,8 @@ type Node struct {
 	nDeliv  int
 	Inserted map[int]bool // eids successfully inserted in this node
 	Silent  bool
+	Faulty  bool // a store fault was injected: no longer compared with the model
+	WasReset bool // fast-forwarded at some point
 	Final   []*hg.Block // delivered blocks as stored after commit (pointers into store at delivery time)
 	FinalBody []string  // canonical body strings at delivery time
 }
